@@ -116,6 +116,14 @@ func (e *fsEngine) PutIfNotExists(ctx context.Context, u *storage.URI, b []byte)
 	if err := e.pre("PutIfNotExists", u, len(b)); err != nil {
 		return err
 	}
+	// storage.FileSystem.PutIfNotExists creates the file exclusively and then writes it:
+	// a fail-stop between the two leaves an empty file under the final name.
+	if err := e.pre("PutIfNotExistsWrite", u, len(b)); err != nil {
+		if f, cerr := os.OpenFile(u.Filepath(), os.O_WRONLY|os.O_CREATE|os.O_EXCL, 0o644); cerr == nil {
+			f.Close()
+		}
+		return err
+	}
 	return e.inner.PutIfNotExists(ctx, u, b)
 }
 
